@@ -607,7 +607,7 @@ def replay(ctx, payload):
 LEVEL_TEXT = ('Machine-checked theorems (Coq, closed under the global context) about a model of BinaryState and the '
               'sequential reduction loop: for every list, every verdict function and every required predicate — '
               'ranges in bounds, termination within (n+1)(n+2) candidates, exact result for monotone tests, all '
-              'singles tried and sweeps tiling 0..n when nothing was accepted, no skip after an accept; the IfPass cursor offers every range with both values; for gcda files the byte-level candidate built from the reported offsets is the record-level cut (every header, record sizes, cursor), is strictly shorter, and the pass\'s restarting loop is exact for monotone tests; the candidate of the lines / line-marker pass, read again, holds exactly the lines / markers of the file cut at [i,e) (bytes and instance lists agree), and the byte-level loop (re-counting instances from each accepted candidate) computes exactly the instance-level loop, so for a monotone test the final text is the required lines. The model is '
+              'singles tried and sweeps tiling 0..n when nothing was accepted, no skip after an accept; the IfPass cursor offers every range with both values; for gcda files the byte-level candidate built from the reported offsets is the record-level cut (every header, record sizes, cursor), is strictly shorter, and the pass\'s restarting loop is exact for monotone tests; the candidate of the lines / line-marker pass, read again, holds exactly the lines / markers of the file cut at [i,e) (bytes and instance lists agree), and the byte-level loop (re-counting instances from each accepted candidate) computes exactly the instance-level loop, so for a monotone test the final text is the required lines (likewise for line markers, where every non-marker line survives). The model is '
               'tied to the real BinaryState / LinesPass / LineMarkersPass / GCDABinaryPass on every run by a correspondence check '
               'evaluated inside Coq; the property oracle is also evaluated directly on the real runs.')
 LEVEL_NOTE = ('Trusted: Coq kernel; hand-written model (validated each run against the code on exhaustive small state '
